@@ -97,6 +97,10 @@ def cases(tier, only=None):
             for fam in ("sse", "avx_gen2", "avx_gen4", "vaes_avx512"):
                 for a in aads:
                     L.append(("gcminit", ("aes/gcm%d_%s.asm" % (bits, fam),), ("_aes_gcm_init_%d_%s" % (bits, fam), a)))
+    if only is None or "gcmdata" in only or "gcmstream" in only:
+        for (k, f, p_) in gcm_cases(tier):
+            if only is None or k in only:
+                L.append((k, f, p_))
     return L
 
 
@@ -115,6 +119,14 @@ def _work(arg):
             o = aescases.xts_case(img, *params)
         elif kind == "gcminit":
             o = gcm_init_case(img, *params)
+        elif kind == "gcmdata":
+            o = gcm_data_case(img, *params)
+        elif kind == "gcmstream":
+            gcm_data_case.force_stream = True
+            try:
+                o = gcm_data_case(img, *params)
+            finally:
+                gcm_data_case.force_stream = False
         else:
             raise KeyError(kind)
         return {"kind": kind, "file": files[0], "case": o.case, "error": o.error, "problems": o.problems, "obligations": o.obligations, "discharged": o.discharged,
@@ -162,3 +174,96 @@ def run(pid, tier, ev, vd, only=None, also_tags=()):
                              "pointers": "concrete synthetic addresses, unaligned, regions separated by guard gaps"})
     ev.extend_unique("stubs", ["aesenc/aesenclast/aesdec/aesdeclast/aesimc = uninterpreted 128-bit functions xor round key; aeskeygenassist over an uninterpreted byte S-box; pclmulqdq exact for concrete operands, uninterpreted otherwise"])
     return ev, vd
+
+
+# ------------------------------------------------------------------ GCM data path (CTR part; the tag value is outside)
+def gcm_data_case(img, bits, fam, direction, pieces, aad_len=13, tag_len=16, inplace=False):
+    """pieces: None/[len] = one-shot call, else init + update per piece + finalize on one context.  Decides: output bytes
+    == in XOR E_K(inc32^i(J0)) for the concatenated stream, exactly len bytes and tag_len tag bytes written, footprint, stale, residue.
+    The tag VALUE (GHASH) is not compared."""
+    import aesrun, aesprim
+    from bvutil import ext, cat, bxor, free_vars
+    total = sum(pieces)
+    oneshot = len(pieces) == 1 and pieces[0] is not None and not getattr(gcm_data_case, "force_stream", False)
+    name = "_aes_gcm_%s_%d_%s %s len=%s aad=%d tag=%d%s" % (direction, bits, fam, "one-shot" if oneshot else "stream", "+".join(map(str, pieces)), aad_len, tag_len, " in-place" if inplace else "")
+    c = aesrun.Case(name, "_aes_gcm_%s_%d_%s" % (direction, bits, fam))
+    kd = c.region("key_data", 1264, "secret_in")
+    ctx = c.region("context", 88, "out")
+    if inplace:
+        pin = pout = c.region("data", total, "inout", align_off=1)
+    else:
+        pin = c.region("in", total, "in", align_off=1)
+        pout = c.region("out", total, "out", align_off=3)
+    iv = c.region("iv", 12, "in", align_off=0x1000 - 12)
+    aad = c.region("aad", aad_len, "in", align_off=1)
+    tag = c.region("tag", tag_len, "out", align_off=5)
+    if oneshot:
+        c.args = [kd, ctx, pout, pin, total, iv, aad, aad_len, tag, tag_len]
+    else:
+        calls = [("_aes_gcm_init_%d_%s" % (bits, fam), [kd, ctx, iv, aad, aad_len])]
+        off = 0
+        for l in pieces:
+            calls.append(("_aes_gcm_%s_%d_update_%s" % (direction, bits, fam), [kd, ctx, pout + off, pin + off, l]))
+            off += l
+        calls.append(("_aes_gcm_%s_%d_finalize_%s" % (direction, bits, fam), [kd, ctx, tag, tag_len]))
+        c.args = calls[0][1]
+        c.func = calls[0][0]
+        c.calls = [(calls[0][0], None)] + calls[1:]
+    out = aescases.Outcome(name)
+    res = aescases.run_case_with_snapshot(img, c)
+    if res.error:
+        out.error = res.error
+        return out
+    nrk = aescases.NR[bits] + 1
+    rk = res.snap["key_data"][:nrk]
+    ivv = res.mem.get(res.regions["iv"], 0, 96)
+    dname, oname = ("data", "data") if inplace else ("in", "out")
+    outputs = []
+    for b in range((total + 15) // 16):
+        n = min(16, total - 16 * b)
+        got = res.mem.get(res.regions[oname], 16 * b, 8 * n)
+        ctr = cat([(int.from_bytes(((b + 2) & 0xffffffff).to_bytes(4, "big"), "little"), 32), (ivv, 96)])
+        ks = aesprim.encrypt_block(rk, ctr)
+        src = res.snap[dname][b] if n == 16 else res.snap.get(dname + ":tail")
+        want = bxor(src, ext(ks, 8 * n - 1, 0), 8 * n)
+        outputs.append(("out[%d]" % b, got, 8 * n))
+        aescases._eq(out, ["C07"], "gcm:%s:ctr-block" % direction, "%s: output block %d equals in XOR E_K(J0+%d)" % (name, b, b + 1), got, want, 8 * n)
+    tg = res.mem.get(res.regions["tag"], 0, 8 * tag_len)
+    outputs.append(("tag", tg, 8 * tag_len))
+    out.obligations += 1
+    if len(res.regions["tag"].written) != tag_len:
+        out.bad(["C08"], "gcm:tag-bytes", "%s: %d tag bytes written instead of %d" % (name, len(res.regions["tag"].written), tag_len))
+    else:
+        out.discharged += 1
+    kdv = res.snap["key_data"]
+    keyvars = set()
+    for x in kdv:
+        keyvars |= free_vars(x)
+    secrets = [("key_data block %d (round key / hash-key power)" % k, x) for k, x in enumerate(kdv[:79])]
+    aescases._common_monitors(out, res, outputs, keyvars, secrets)
+    return out
+
+
+def gcm_cases(tier):
+    L = []
+    q = tier == "quick"
+    for bits in (128, 256):
+        for fam in ("sse", "avx_gen2", "avx_gen4", "vaes_avx512"):
+            f = ("aes/gcm%d_%s.asm" % (bits, fam),)
+            lens = [0, 1, 15, 16, 17, 33, 64, 127, 128, 129, 143, 144, 255, 256, 257, 271] if q else list(range(0, 40)) + [63, 64, 65, 127, 128, 129, 143, 144, 145, 255, 256, 257, 271, 272, 273, 287, 511, 512, 513]
+            if fam == "vaes_avx512":
+                lens = lens + [768, 769, 783]
+            for d in ("enc", "dec"):
+                for ln in lens:
+                    L.append(("gcmdata", f, (bits, fam, d, [ln], 13, 16, False)))
+                for ln in (17, 144):
+                    L.append(("gcmdata", f, (bits, fam, d, [ln], 0, 12, True)))
+                    L.append(("gcmdata", f, (bits, fam, d, [ln], 20, 8, False)))
+                # streaming: pieces leaving partial blocks between calls
+                streams = [[0, 5], [5, 0, 11], [1, 16], [15, 1, 16], [16, 16], [17, 15], [3, 13, 17], [20, 128], [7, 129, 3], [130, 130]] if q else \
+                    [[a, b] for a in range(0, 34) for b in (0, 1, 15, 16, 17)] + [[7, 129, 3], [130, 130], [255, 2, 16], [20, 272, 5]]
+                if fam == "vaes_avx512":
+                    streams = streams + [[400, 17], [390, 17], [5, 440, 9], [5, 270, 9], [268, 4], [700, 3]]
+                for p_ in streams:
+                    L.append(("gcmstream", f, (bits, fam, d, p_, 13, 16, False)))
+    return L
